@@ -142,9 +142,12 @@ PrefixLaw(a, b, c) ==
   /\ SpecPrefix(sa, sb, FALSE) =>
         LET subs == FlattenUpTo(sa, b, c).subs IN
         /\ Len(subs) = NumLeaves(sa)
-        /\ Concat([i \in DOMAIN subs |-> F(subs[i], c).leaves]) = F(b, c).leaves
+        \* the returned subtrees partition b's leaves (in a's leaf order, which may differ from b's for re-ordered dicts)
+        /\ LET got == Concat([i \in DOMAIN subs |-> F(subs[i], c).leaves]) IN
+           Len(got) = Len(F(b, c).leaves) /\ Range(got) = Range(F(b, c).leaves)
         /\ \A i \in DOMAIN subs : subs[i] = Access(b, Paths(sa)[i], c)
-  /\ SpecPrefix(sa, sb, TRUE) <=> (SpecPrefix(sa, sb, FALSE) /\ NumNodes(sa) < NumNodes(sb))
+  \* a < b  iff  a <= b and not b <= a  (b has a non-leaf node where a has a leaf)
+  /\ SpecPrefix(sa, sb, TRUE) <=> (SpecPrefix(sa, sb, FALSE) /\ ~SpecPrefix(sb, sa, FALSE))
   \* antisymmetry up to dict kind / key order / maxlen
   /\ (SpecPrefix(sa, sb, FALSE) /\ SpecPrefix(sb, sa, FALSE)) => NumNodes(sa) = NumNodes(sb) /\ NumLeaves(sa) = NumLeaves(sb)
 
